@@ -131,9 +131,9 @@ def check_closed(ctx, lines, tpb, q, durs, delay, nticks, tag):
 def run(ctx):
     r = ctx.rng
     # (a) model correspondence
-    sched_suite.run_suite(ctx, PROF, ctx.scale(400, 20000), "c01", [], nontrivial, signature_of)
+    sched_suite.run_suite(ctx, PROF, ctx.scale(1500, 100000), "c01", [], nontrivial, signature_of)
     # (b) closed form on short/medium runs
-    for i in range(ctx.scale(120, 3000)):
+    for i in range(ctx.scale(300, 20000)):
         tpb = r.choice(sched_gen.TPBS)
         q = r.choice([x for x in sched_gen.QS if x * tpb <= 600000])
         n = r.randint(1, 6)
